@@ -420,6 +420,8 @@ func glyphNames(r *rand.Rand, n int) []string {
 				s = ".notdef"
 			case r.IntN(3) == 0 && i < len(macNames):
 				s = macNames[i]
+			case r.IntN(3) == 0:
+				s = MacNames[1+r.IntN(257)] // any standard Macintosh name, at any position
 			case r.IntN(4) == 0:
 				s = fmt.Sprintf("uni%04X", 0x100+r.IntN(0xF000))
 			case r.IntN(4) == 0:
@@ -490,8 +492,11 @@ func glyfOutlines(r *rand.Rand, o Opts, n int, widths []int, info *Info) *glyf.O
 				}
 			}
 			cg := glyf.CompositeGlyph{Components: comps}
-			if r.IntN(5) == 0 {
+			if r.IntN(4) == 0 {
 				cg.Instructions = []byte{1, 2, 3}
+				if r.IntN(2) == 0 {
+					cg.Instructions = []byte{} // instruction field present, zero instructions
+				}
 				cg.Components[len(comps)-1].Flags |= glyf.FlagWeHaveInstructions
 			}
 			out.Glyphs[i] = &glyf.Glyph{Rect16: box, Data: cg}
@@ -554,6 +559,17 @@ func CFFGlyph(r *rand.Rand, name string, width float64, intOnly bool) *cff.Glyph
 	nsub := 1 + r.IntN(3)
 	for s := 0; s < nsub; s++ {
 		g.MoveTo(coord(r, intOnly), coord(r, intOnly))
+		if r.IntN(5) == 0 {
+			// a flex-like pair of curves: horizontal start, joint and (nearly) end
+			x, y := g.Cmds[len(g.Cmds)-1].Args[0], g.Cmds[len(g.Cmds)-1].Args[1]
+			d := func() float64 { return float64(10 + r.IntN(60)) }
+			dy2 := float64(5 + r.IntN(30))
+			endDy := []float64{0, 0, float64(r.IntN(41) - 20)}[r.IntN(3)]
+			x1, x2, x3 := x+d(), x+2*d(), x+3*d()
+			g.CurveTo(x1, y, x2, y+dy2, x3, y+dy2)
+			x4, x5, x6 := x3+d(), x3+2*d(), x3+3*d()
+			g.CurveTo(x4, y+dy2, x5, y, x6, y+endDy)
+		}
 		for k := 1 + r.IntN(6); k > 0; k-- {
 			if r.IntN(3) == 0 {
 				g.CurveTo(coord(r, intOnly), coord(r, intOnly), coord(r, intOnly), coord(r, intOnly), coord(r, intOnly), coord(r, intOnly))
